@@ -121,13 +121,15 @@ PROPS = {
                  "time, user-function argument, evicted-callback ledger, Items/Range as sets, Count/Size, DefaultExpiration() must be deeply equal. evaluations = cases; non-trivial = a call "
                  "touched an expired-uncleaned key, or a callback fired, or a bulk insert crossed both twins' grow thresholds; distinct by hash of (constructor variant, calls)."),
     "C14": plain([npart("race", "^TestC14$", {"shards": 8, "checks": 1, "timeout": 900, "env": {"VERIF_C14_PROGRAMS": 18}},
-                        {"shards": 8, "checks": 1, "timeout": 3 * 3600, "env": {"VERIF_C14_PROGRAMS": 600}})],
+                        {"shards": 8, "checks": 1, "timeout": 3 * 3600, "env": {"VERIF_C14_PROGRAMS": 600}}),
+                  npart("long", "^TestC14Long$", {"shards": 4, "checks": 1, "timeout": 900, "env": {"VERIF_C14_LONG": 8}},
+                        {"shards": 8, "checks": 1, "timeout": 3 * 3600, "env": {"VERIF_C14_LONG": 300}})],
                  "Cases are generated parallel programs (rapid Custom generator harvested with Example(seed): container in {Map, MapOf, Cache, CacheOf}, profile in {write-heavy, "
                  "read-heavy, range-under-write, settings churn (SetDefaultExpiration/SetEvictedCallback/DeleteExpired/Items), clear/resize churn over 300-4000 keys, janitor on at 1 ms}, "
                  "2-64 goroutines x 50-2000 calls, key range 1-400, per-goroutine op streams from the program's seed), each executed natively as its own Go subtest in a binary built "
                  "with -race. Oracle: the Go race detector (any report fails the subtest) and payload integrity: every value read back (also in visitors, Compute arguments, callbacks, "
                  "Items) is a pointer to a freshly initialised 72-byte payload whose checksum must be consistent. evaluations = programs; non-trivial = >= 2 goroutines share a key range "
-                 "<= 400 with writers in every profile; distinct by hash of the program.", race=True,
+                 "<= 400 with writers in every profile; distinct by hash of the program. Part `long`: 2-16 goroutines x 200-3000 calls on DISJOINT key sets (fill/churn/drain) natively under -race; each goroutine's calls must agree exactly with its own sequential reference model and the quiescent Size with the point lookups — lost updates and stale publications on real threads, independent of the scheduler used elsewhere.", race=True,
                  assumptions=["OS-scheduled: not reproducible by seed; absence of race reports is not absence of races."]),
     "C15": plain([npart("janitor", "^TestC15$", {"shards": 4, "checks": 1, "timeout": 900, "env": {"VERIF_C15_CONFIGS": 16}},
                         {"shards": 4, "checks": 1, "timeout": 3 * 3600, "env": {"VERIF_C15_CONFIGS": 400}})],
